@@ -729,6 +729,16 @@ func (db *DB) doFollowLeaders(stream string, tables []*table, offsets []common.O
 				}
 			}
 		}
+		// A table that has no offset for a source yet (it is new, or it lost its
+		// memstore in a crash before it ever flushed) needs that source's stream
+		// from the beginning, no matter how far the other tables have got.
+		for _, os := range offsets {
+			for _, source := range sources {
+				if _, found := os[source]; !found {
+					earliestOffsetsBySource[source] = nil
+				}
+			}
+		}
 		offsetsMx.RUnlock()
 
 		if db.opts.MaxFollowAge > 0 {
